@@ -93,7 +93,8 @@ mutual
     | .unary tok op r, cw, h => by
       simp only [Expr.complete] at h
       simp only [writeExpr, Expr.complete_not_none h, Bool.false_eq_true, if_false]
-      rw [ok_closeIf, ok_writeExpr r _ h]; simp
+      rw [ok_closeIf, ok_writeExpr r _ h]
+      split <;> simp
     | .postfix tok l op, cw, h => by
       simp only [Expr.complete] at h
       simp only [writeExpr, Expr.complete_not_none h, Bool.false_eq_true, if_false]
